@@ -1298,7 +1298,7 @@ func main() {
 	defer e.close()
 	nLayouts, perLayout, nFunc := 24, 8, 80
 	if c.Thorough() {
-		nLayouts, perLayout, nFunc = 160, 12, 500
+		nLayouts, perLayout, nFunc = 110, 11, 500
 	}
 	if c.N > 0 {
 		nLayouts = c.N
